@@ -3,7 +3,7 @@
      R <file> <query>,<query>,...   -> results joined by '|'  (same wire format as the Go harness)
      W <file> <unaligned,blocksize,skipidx,restart,sha256,exact> <min> <max> <refs> <logs>  -> ok | empty | err<code>
      SR <dir> <sha256>              -> ok|<all refs>|<all logs> through the stack's merged table
-     SW <dir> <cfg> <op>!<op>...    -> a stack written by the C code (op = A~refs~logs | CA): status per op
+     SW <dir> <cfg> <op>!<op>...    -> a stack written by the C code (op = A~refs~logs | CA | CE~time~min_update_index): status per op
 */
 #include <stdint.h>
 #include <stdio.h>
@@ -409,6 +409,16 @@ static void do_stack_write(char *dir, char *cfg, char *ops)
 	for (o = strtok_r(ops, "!", &save); o; o = strtok_r(NULL, "!", &save)) {
 		if (!strcmp(o, "CA")) {
 			err = reftable_stack_compact_all(st, NULL);
+		} else if (!strncmp(o, "CE~", 3)) {
+			char *p[3];
+			struct reftable_log_expiry_config ec = { 0 };
+			if (split(o, '~', p, 3) != 3) {
+				err = -100;
+			} else {
+				ec.time = strtoull(p[1], NULL, 10);
+				ec.min_update_index = strtoull(p[2], NULL, 10);
+				err = reftable_stack_compact_all(st, &ec);
+			}
 		} else {
 			char *p[3];
 			struct add_arg a = { st, NULL, NULL };
